@@ -48,6 +48,8 @@ func (e Entry) String() string {
 		return fmt.Sprintf("%s[%s seq=%d T=%d]", e.Kind, e.MsgType, e.Seq, e.NextTarget)
 	case "timer":
 		return fmt.Sprintf("timer[%s %v]", e.Timer, e.Dur)
+	case "timer-stopped":
+		return fmt.Sprintf("timer-stopped[%s]", e.Timer)
 	case "store.Save", "store.IncrSender":
 		return fmt.Sprintf("%s(%d)", e.Kind, e.Seq)
 	case "store.Reset", "store.SetNextTarget", "store.SetNextSender":
@@ -338,6 +340,12 @@ func installTimerHook() {
 			name := "peer"
 			if timer == r.V.StateTimer() {
 				name = "heartbeat"
+			}
+			if d < 0 {
+				// EventTimer.Stop: terminal - the goroutine that turns expirations into events ends,
+				// a later Reset arms a timer nobody listens to
+				r.add(Entry{Kind: "timer-stopped", Timer: name})
+				return
 			}
 			r.mu.Lock()
 			r.Armed[name] = d
